@@ -10,6 +10,7 @@ CONSTANTS
   DotAll = TRUE
   FindFirst = FALSE
   Emit = "none"
+  BlockLen = 0
 SPECIFICATION Spec
 INVARIANT MatchesIffGlob
 INVARIANT BadEscapeRaises
